@@ -302,7 +302,8 @@ def readExtsAfter (single : Bool) (fmt : Fmt) (e : Endian) (f : HFile) : Except 
       if s0 = 0 then .ok []
       else
         -- `extsize = hdr._structarr['vox_offset'] - fileobj.tell()` (generated), tell = block + extender
-        let extsize : Int := if single then Nb.Gen.C11.extSize (f.voxOffset : Int) ((fmt.hdrSize : Int) + 4) else -1
+        let extsize : Int := if single then Nb.Gen.C11.extSize (f.voxOffset : Int) ((fmt.hdrSize : Int) + 4)
+                             else Nb.Gen.C11.pairExtSize   -- `extsize = -1` for a detached header (generated)
         parseExts e (f.after.drop 4) extsize
   | _ => .ok []
 
